@@ -11,17 +11,20 @@ EXTENDS Integers, Sequences, FiniteSets, TLC, Json
 CONSTANTS Reqs, Concurrent
 
 \* "sendfail": the connection is already dying when the request is written: the write fails, nothing reaches the server
-Policies == {"answer", "kill", "ack_kill", "result_kill", "ack_answer", "hold", "sendfail"}
+\* "kill_rekill": the link dies with the request pending (not acknowledged); the replacement connection dies too, at the
+\* moment the waiting invoker has noticed it and before it re-sent anything; the second replacement answers
+Policies == {"answer", "kill", "ack_kill", "result_kill", "ack_answer", "hold", "sendfail", "kill_rekill"}
 
-VARIABLES pol, idx, alive, closed, st, rc, gen, acked
-vars == <<pol, idx, alive, closed, st, rc, gen, acked>>
+VARIABLES pol, idx, alive, closed, st, rc, gen, acked, rekill
+vars == <<pol, idx, alive, closed, st, rc, gen, acked, rekill>>
 Order == [i \in 1..Cardinality(Reqs) |-> i]       \* requests 1..n are issued in this order
 
 Pending(k) == st[k] \in {"sent", "acked"}
 Busy == \E k \in Reqs : Pending(k)
 
 Init == /\ pol \in [Reqs -> Policies]
-        /\ (Concurrent => \A k \in Reqs : pol[k] # "sendfail")
+        /\ (Concurrent => \A k \in Reqs : pol[k] \notin {"sendfail", "kill_rekill"})
+        /\ rekill = FALSE
         /\ idx = 1 /\ alive = TRUE /\ closed = FALSE /\ gen = 1
         /\ st = [k \in Reqs |-> "new"] /\ rc = [k \in Reqs |-> 0] /\ acked = {}
 
@@ -36,13 +39,14 @@ Issue(k) ==
           st' = [st EXCEPT ![k] = "sent"] /\ UNCHANGED <<alive, acked>>
      ELSE CASE pol[k] = "answer" -> st' = [st EXCEPT ![k] = "ok"] /\ UNCHANGED <<alive, acked>>
             [] pol[k] = "ack_answer" -> st' = [st EXCEPT ![k] = "ok"] /\ acked' = acked \cup {k} /\ UNCHANGED alive
-            [] pol[k] = "kill" -> st' = [st EXCEPT ![k] = "sent"] /\ alive' = FALSE /\ UNCHANGED acked
+            [] pol[k] \in {"kill", "kill_rekill"} -> st' = [st EXCEPT ![k] = "sent"] /\ alive' = FALSE /\ UNCHANGED acked
             [] pol[k] = "ack_kill" -> st' = [st EXCEPT ![k] = "acked"] /\ acked' = acked \cup {k} /\ alive' = FALSE
             [] pol[k] = "result_kill" -> /\ alive' = FALSE /\ UNCHANGED acked
                                          /\ \/ st' = [st EXCEPT ![k] = "ok"]      \* the result was read before the death was noticed
                                             \/ st' = [st EXCEPT ![k] = "sent"]    \* or it was not
             [] pol[k] = "hold" -> st' = [st EXCEPT ![k] = "sent"] /\ UNCHANGED <<alive, acked>>
             [] pol[k] = "sendfail" -> st' = [st EXCEPT ![k] = "sent"] /\ alive' = FALSE /\ UNCHANGED acked
+  /\ rekill' = (rekill \/ (~Concurrent /\ pol[k] = "kill_rekill"))
   /\ UNCHANGED <<pol, closed, gen>>
 
 \* concurrent mode: with every request in flight the server acknowledges those whose policy says so and kills the link
@@ -51,20 +55,24 @@ ServerActsOnBoth ==
   /\ st' = [k \in Reqs |-> IF pol[k] \in {"ack_kill", "ack_answer"} THEN "acked" ELSE "sent"]
   /\ acked' = {k \in Reqs : pol[k] \in {"ack_kill", "ack_answer"}}
   /\ alive' = FALSE
-  /\ UNCHANGED <<pol, idx, closed, rc, gen>>
+  /\ UNCHANGED <<pol, idx, closed, rc, gen, rekill>>
 
 \* the dead connection's engine is closed: acknowledged requests fail, the others wait for the new connection
 Death ==
   /\ ~alive /\ \E k \in Reqs : st[k] = "acked"
   /\ st' = [k \in Reqs |-> IF st[k] = "acked" THEN "err" ELSE st[k]]
-  /\ UNCHANGED <<pol, idx, alive, closed, rc, gen, acked>>
+  /\ UNCHANGED <<pol, idx, alive, closed, rc, gen, acked, rekill>>
 
 \* reconnect loop replaces the connection; invokeConn re-sends what was not acknowledged; the server answers it
 Reconnect ==
   /\ ~alive /\ ~closed /\ ~\E k \in Reqs : st[k] = "acked"
-  /\ alive' = TRUE /\ gen' = gen + 1
-  /\ st' = [k \in Reqs |-> IF st[k] = "sent" THEN "ok" ELSE st[k]]
-  /\ rc' = [k \in Reqs |-> IF st[k] = "sent" THEN rc[k] + 1 ELSE rc[k]]
+  /\ gen' = gen + 1
+  /\ IF rekill
+     THEN \* the waiting invoker wakes up, and this connection dies before the request is written to it
+          /\ rekill' = FALSE /\ UNCHANGED <<alive, st, rc>>
+     ELSE /\ alive' = TRUE /\ UNCHANGED rekill
+          /\ st' = [k \in Reqs |-> IF st[k] = "sent" THEN "ok" ELSE st[k]]
+          /\ rc' = [k \in Reqs |-> IF st[k] = "sent" THEN rc[k] + 1 ELSE rc[k]]
   /\ UNCHANGED <<pol, idx, closed, acked>>
 
 \* the client is closed while a held request is pending
@@ -72,7 +80,7 @@ Close ==
   /\ ~closed /\ alive /\ \E k \in Reqs : st[k] = "sent" /\ pol[k] = "hold"
   /\ closed' = TRUE
   /\ st' = [k \in Reqs |-> IF Pending(k) \/ st[k] = "new" THEN "err" ELSE st[k]]
-  /\ UNCHANGED <<pol, idx, alive, rc, gen, acked>>
+  /\ UNCHANGED <<pol, idx, alive, rc, gen, acked, rekill>>
 
 Next == (\E k \in Reqs : Issue(k)) \/ ServerActsOnBoth \/ Death \/ Reconnect \/ Close
 Spec == Init /\ [][Next]_vars
